@@ -10,6 +10,7 @@ def harness_args(run, tier, n, cases):
 
 PROP = {
     "id": "C04",
+    "tie2": ["Tie2Hsms"],
     "harness": "c04",
     "driver": "c04",
     "n_quick": 30000,
